@@ -65,6 +65,13 @@ def scenarios():
                                            # afterwards the code of /a/x goes back to version 1: what the reader computed during the race
                                            # must not be served for it unless it was computed from version 1
                                            post=[(B("keep", "fsm_a1", "f", "/a/x"), "f(1)"), (B("eval", "fsm_r1", "root_r"), "r(f(1))")])
+    # a long-lived (cache-wrapped) process loads /a/x twice while another process re-keeps it: a load that starts after the
+    # keeper has finished returns the new value
+    for nm, k in (("S13_two_loads_vs_rekeep", kw()), ("S13c_two_loads_vs_rekeep_cached", kw(cache=2))):
+        sc[nm] = dict(setup=[B("keep", "fsm_a1", "f", "/a/x", k)],
+                      procs=[B("load_twice", None, None, "/a/x", k), B("keep", "fsm_a2", "f", "/a/x", k)],
+                      allowed={0: ["f(1)|f(1)", "f(1)|f(2)", "f(2)|f(2)"]}, second_load_after=(0, 1, "f(2)"),
+                      final={"/a/x": ("fsm_a2", "f")})
     sc["S11_none_result"] = dict(setup=[], procs=[B("keep", "fsm_a1", "n", "/a/n"), B("keep", "fsm_a1", "n", "/a/n")], final={"/a/n": ("fsm_a1", "n")})
     return sc
 
@@ -98,6 +105,14 @@ def judge(name, sc, run, m):
             if d["kind"] == "load" and r[1] == "DDSException" and not sc["setup"]:
                 continue
             probs.append((f"C07|{name}|{d['kind']}|raises={r[1]}", f"{role} raised {r[1]}: {r[3]}"))
+    if "second_load_after" in sc:
+        li, ki, want = sc["second_load_after"]
+        tr = run.trace
+        mark = [j for j, (pid, op, args, res) in enumerate(tr) if pid == li and "second_load_starts" in str(args)]
+        last_keeper = max([j for j, (pid, op, args, res) in enumerate(tr) if pid == ki] or [-1])
+        r = run.procs[li].result
+        if mark and r[0] == "ok" and mark[0] > last_keeper and not r[1][0].endswith("|" + want):
+            probs.append((f"C07|{name}|load|stale_after_keeper_finished", f"the second load started after the keeper's last file-system operation but returned {r[1][0]!r}"))
     # after all processes finished a fresh process sees the right value everywhere and re-keeping executes nothing
     vfs = run.vfs
     for fkw in sc.get("final_kw", [SC.store_kw()]):
